@@ -101,9 +101,10 @@ def run(ctx):
     ctx.evidence(dict(
         evaluations=calls,
         distinct_nontrivial=fw.distinct_nontrivial(cases),
-        rule="sessions = New + <=25 calls; 105 sessions enumerated exhaustively whatever the seed (every ordered pair of check kinds at plan and at block level, "
-             "every kind of call at each of the 5 cursor positions, every invalid ChecksType at each position); then random families: 25% all-valid (valid prefix, Plan(), sometimes calls after it, sometimes Reset + second epoch), "
-             "60% the same with ONE misuse of a uniformly chosen kind inserted at a uniformly chosen applicable position, 5% invalid New, "
+        rule="sessions = New + <=25 calls; 394 sessions enumerated exhaustively whatever the seed (every ordered pair of check kinds at plan and at block level, "
+             "every kind of call at each of the 5 cursor positions, every invalid ChecksType at each position, every ordered pair first misuse kind x second misuse kind of the 17 kinds - 289 sessions - "
+             "in which the second misuse meets a builder already holding the first one's error); then random families: 25% all-valid (valid prefix, Plan(), sometimes calls after it, sometimes Reset + second epoch), "
+             "60% the same with 1-3 misuses, each of a uniformly chosen kind (later ones biased to nil arguments) inserted at a uniformly chosen applicable position, 5% invalid New, "
              "10% unbiased random call streams; evaluations = calls executed on the real builder and compared; "
              "distinct = distinct (session, observation) terms; non-trivial = >=3 calls and (a misuse or an emitted plan of >=4 objects)",
         samples=[dict(id=c["id"], input=c["input"], dist=c["dist"]) for c in cases[:3]],
@@ -112,6 +113,8 @@ def run(ctx):
         sessions_needing_B2=len(need_b2),
         distribution=dict(family=fw.histogram(c["kind"] for c in cases),
                           injected_misuse=fw.histogram(c["dist"]["injected"] or "none" for c in cases),
+                          second_misuse=fw.histogram(c["dist"].get("second_misuse") or "none" for c in cases),
+                          misuses_injected=fw.histogram(c["dist"].get("misuses_injected", 0) for c in cases),
                           first_error_observed=fw.histogram(c["dist"]["first_error"] for c in cases),
                           length=fw.histogram(c["dist"]["len"] for c in cases),
                           plans_emitted=fw.histogram(c["dist"]["emitted"] for c in cases),
